@@ -228,6 +228,36 @@ def i4_slot_coherence(prog, rep, body):
                   sample={'pattern': sorted(pth)})
 
 
+def _ts_in(prog, b, op, seen=None, depth=0):
+    seen = seen if seen is not None else set()
+    if op['k'] == 'const':
+        return ['a constant']
+    pl = op['pl']
+    steps = dataflow.place_steps(prog, b, pl)
+    if steps:
+        last = steps[-1]
+        return [] if ((last[0] or '').endswith('TimedMessage') and last[2] == 'timestamp') else ['%s.%s' % ((last[0] or '?').split('::')[-1], last[2])]
+    if pl['p'] or pl['l'] in seen or depth > 8:
+        return ['an untracked place']
+    seen.add(pl['l'])
+    if 1 <= pl['l'] <= b['argc']:
+        return ['parameter _%d of %s' % (pl['l'], b['name'])]
+    bad, nd = [], 0
+    for bb2 in b['blocks']:
+        for s_ in bb2['s']:
+            if s_['k'] == 'assign' and s_['pl']['l'] == pl['l'] and not s_['pl']['p']:
+                nd += 1
+                if s_['rv']['k'] == 'use':
+                    bad += _ts_in(prog, b, s_['rv']['op'], seen, depth + 1)
+                else:
+                    bad.append('a computed value (%s)' % s_['rv']['k'])
+        t2 = bb2['t']
+        if t2 and t2['k'] == 'call' and t2.get('dest') and t2['dest']['l'] == pl['l'] and not t2['dest']['p']:
+            nd += 1
+            bad.append('the result of %s' % ((t2['callee'] or {}).get('name') or 'a call'))
+    return bad if nd else ['an undefined temporary']
+
+
 def i1_callers(prog, rep):
     n = 0
     for b in prog.bodies.values():
@@ -317,7 +347,19 @@ def i1_callers(prog, rep):
                     return ['an untracked place']
                 seen.add(pl['l'])
                 if 1 <= pl['l'] <= b['argc']:
-                    return ['parameter _%d' % pl['l']]
+                    # a parameter of an extracted helper: what its callers hand over (one level up)
+                    sites = []
+                    for cb in prog.bodies.values():
+                        for cbb in cb['blocks']:
+                            ct = cbb['t']
+                            if ct and ct['k'] == 'call' and ct['callee'] and (ct['callee'].get('rdid') or ct['callee'].get('did')) == b['id'] and len(ct['args']) >= pl['l']:
+                                sites.append((cb, ct['args'][pl['l'] - 1]))
+                    if not sites or depth > 0 or b['kind'] != 'fn':
+                        return ['parameter _%d' % pl['l']]
+                    bad = []
+                    for cb, aop in sites:
+                        bad += _ts_in(prog, cb, aop)
+                    return bad
                 bad, nd = [], 0
                 for bb2 in b['blocks']:
                     for s_ in bb2['s']:
